@@ -205,6 +205,81 @@ def halted_by_api_cases(res):
                     before = now          # (what a peer's record does to the stored position is not "an event")
 
 
+def closing_subscriber_cases(res):
+    """"announced exactly once by the instance that finished it" -- to EVERY subscriber -- when one of them ends the show from
+    inside its callback: a monitor that stops the decider (or the whole engine) on the first finished run, subscribed BEFORE
+    the replication link and the recorder.  The notification being delivered is delivered to the end; nothing is
+    announced after the close."""
+    from bobocep.cep.engine.decider.pubsub import BoboDeciderSubscriber
+    from bobocep.cep.engine.decider.decider import BoboDecider
+    from bobocep.cep.engine.engine import BoboEngine
+    from bobocep.setup.simple import BoboSetupSimple
+    from bobocep.cep.action import BoboActionHandlerBlocking
+    from harness.drive_decider import CounterGen
+    P = gp.pattern
+    phens = [('ph', [P('p', ['0000', '0000'], [['eq:0'], ['eq:1']], halt=['eq:9']), P('q', ['0000', '0000'], [['eq:0'], ['eq:1']])])]
+    h = 'g0=z0:0:s:0;g1=z1:1:s:1'
+
+    class Keep(BoboDeciderSubscriber):
+        def __init__(self):
+            self.seen = []
+
+        def on_decider_update(self, completed, halted, updated, local):
+            self.seen.append((tuple(r.run_id for r in completed), tuple(r.run_id for r in halted), local))
+
+    class Stopper(BoboDeciderSubscriber):
+        def __init__(self, what):
+            self.what, self.fired = what, False
+
+        def on_decider_update(self, completed, halted, updated, local):
+            if (completed or halted) and not self.fired:
+                self.fired = True
+                self.what()
+    for closes in ('decider', 'engine'):
+        for how in ('complete', 'halt', 'remote-complete', 'remote-halt'):
+            case = {'closing_subscriber': True, 'closes': closes, 'how': how}
+            res.add_case(case, nontrivial=True)
+            res.count('closing_subscriber_cases')
+            try:
+                if closes == 'engine':
+                    eng = BoboSetupSimple(phenomena=pl.mk_phenomena(phens), handler=BoboActionHandlerBlocking()).generate()
+                    dec, shut = eng.decider, eng.close
+                else:
+                    dec = BoboDecider(pl.mk_phenomena(phens), CounterGen('e'), CounterGen('r'), max_cache=1000)
+                    shut = dec.close
+                first, last = Keep(), Keep()
+                dec.subscribe(first)
+                dec.subscribe(Stopper(shut))
+                dec.subscribe(last)
+                dec.on_receiver_update(pl.mk_event('e0', 0, 's', 0))
+                dec.update()
+                if how in ('complete', 'halt'):
+                    dec.on_receiver_update(pl.mk_event('e1', 1, 's', 1 if how == 'complete' else 9))
+                    dec.update()
+                else:
+                    rec = [pl.parse_rec(f'f0|ph|p|2|{h}')]
+                    dec.on_distributed_update(rec if how == 'remote-complete' else [], rec if how == 'remote-halt' else [], [])
+                # anything after the close changes nothing and announces nothing
+                n_first, n_last = len(first.seen), len(last.seen)
+                dec.on_receiver_update(pl.mk_event('e2', 2, 's', 0))
+                dec.update()
+            except Exception as e:   # noqa
+                res.violations.append(Violation('exception-escaped', f"{case}: {type(e).__name__}: {e}", case))
+                continue
+            fin_first = [x for x in first.seen if x[0] or x[1]]
+            fin_last = [x for x in last.seen if x[0] or x[1]]
+            if not fin_first:
+                continue          # (nothing finished: not the situation meant)
+            if fin_last != fin_first:
+                res.violations.append(Violation(
+                    'announced-not-exactly-once',
+                    f"a subscriber closed the {closes} from inside its callback when a run finished ({how}): the subscriber before it was told "
+                    f"{fin_first}, the subscriber after it {fin_last or 'nothing'} -- the finished run left the active set without being "
+                    f"announced to every subscriber", case))
+            elif (len(first.seen), len(last.seen)) != (n_first, n_last):
+                res.violations.append(Violation('announced-after-close', f"{case}: a notification was delivered after close()", case))
+
+
 def fail(res, case, k, sig, what):
     res.violations.append(Violation(sig, f"{what} (step {k}: {case.ops[k][:80]})", {**case.to_json(), 'failing_step': k}))
     return False
@@ -341,6 +416,7 @@ def run(ctx: Ctx) -> Result:
             if res.violations:
                 break
             rd = RealDecider(case.phens, case.cache)
+            rd.rec.dec = None               # (quiet: the subscriber does not look at the decider from inside its callback either)
             for op in case.ops:
                 rd.do_quiet(op)
             res.count('quiet_replays')
@@ -361,6 +437,8 @@ def run(ctx: Ctx) -> Result:
         RealDecider.__init__ = orig_init
     if ctx.replay is None or ctx.replay.get('replay', {}).get('halted_by_api'):
         halted_by_api_cases(res)
+    if ctx.replay is None or ctx.replay.get('replay', {}).get('closing_subscriber'):
+        closing_subscriber_cases(res)
     # "announced exactly once by the instance that finished it" when the SAME run is finished by a peer and locally at the same
     # moment: the peer's notification is applied by the distributed thread while the engine thread processes the datum
     # that finishes the local copy (real engines + replication, the engine's cycle injected where the distributed thread
